@@ -357,7 +357,7 @@ func (rn *runner) run(h Hist, byName map[string]opDef) {
 	defer os.RemoveAll(dir)
 	defer os.RemoveAll(sdir)
 	_ = os.MkdirAll(dir, 0o755)
-	fs := crashfs.New(dir, crashfs.Options{Torn: true})
+	fs := crashfs.New(dir, crashfs.Options{Torn: true, TornCuts: tornCuts})
 	fs.Start()
 	fs.SetLabel("open")
 	m, err := manifest.Open(dir, fs)
@@ -618,4 +618,26 @@ func second(ops []string) string {
 		return ops[1]
 	}
 	return ""
+}
+
+// tornCuts: an appended edit frame is [4-byte length][payload][4-byte crc]; small buffers are
+// cut at every byte, larger ones around both ends (length header, first payload bytes, crc)
+// and in the middle.
+func tornCuts(n int) []int {
+	var c []int
+	if n <= 48 {
+		for k := 1; k < n; k++ {
+			c = append(c, k)
+		}
+		return c
+	}
+	seen := map[int]bool{}
+	for _, k := range []int{1, 2, 3, 4, 5, 6, 8, n / 2, n - 8, n - 5, n - 4, n - 3, n - 2, n - 1} {
+		if k > 0 && k < n && !seen[k] {
+			seen[k] = true
+			c = append(c, k)
+		}
+	}
+	sort.Ints(c)
+	return c
 }
